@@ -22,15 +22,15 @@ type CaseC10 struct {
 	Steps   []string               `json:"steps"` // plain / wildcard path
 	Key     string                 `json:"key"`
 	Conds   []Cond                 `json:"conds,omitempty"`
-	NewKind string                 `json:"new_kind"` // scalar | map | Map | str | str-bool | str-num | existing
+	NewKind string                 `json:"new_kind"`          // scalar | map | Map | str | str-bool | str-num | existing
 	NewVal  interface{}            `json:"new_val,omitempty"` // kind "existing": a scalar that some addressed entry already holds
 	Sep     string                 `json:"sep,omitempty"`
 	// Pre is an earlier update of the same Map (a history of two calls): the library stores the one
 	// value object at every node it addresses, so the Map the second call works on shares structure.
-	PreSteps []string    `json:"pre_steps,omitempty"`
-	PreKey   string      `json:"pre_key,omitempty"`
-	PreVal   interface{} `json:"pre_val,omitempty"`
-	Unrelated uint16     `json:"unrelated_opts,omitempty"`
+	PreSteps  []string    `json:"pre_steps,omitempty"`
+	PreKey    string      `json:"pre_key,omitempty"`
+	PreVal    interface{} `json:"pre_val,omitempty"`
+	Unrelated uint16      `json:"unrelated_opts,omitempty"`
 }
 
 func init() { register("C10", checkC10) }
@@ -145,6 +145,15 @@ func genC10(t *rapid.T) CaseC10 {
 				c.Key = last
 			}
 		case 1:
+			c.Key = rapid.SampledFrom(shapeKeys).Draw(t, "ukey")
+		}
+	} else if src == 2 {
+		// the empty string as a key and as a path segment
+		c.Src = "boost-empty-key"
+		var st []Step
+		c.Map, st, c.Key = boostEmptyKey(t)
+		c.Steps = stepNames(st)
+		if rapid.IntRange(0, 2).Draw(t, "form2") == 0 {
 			c.Key = rapid.SampledFrom(shapeKeys).Draw(t, "ukey")
 		}
 	} else {
